@@ -5,6 +5,7 @@ package ir
 
 import (
 	"fmt"
+	"math"
 )
 
 // CloneModuleForOverrides creates a deep enough copy of a module for ProcessOverrides
@@ -189,12 +190,12 @@ func resolveOverrideValue(module *Module, idx int, constants PipelineConstants, 
 	if ov.ID != nil {
 		key := fmt.Sprintf("%d", *ov.ID)
 		if val, ok := constants[key]; ok {
-			return val, nil
+			return convertSuppliedValue(module, ov.Ty, val), nil
 		}
 	}
 	if ov.Name != "" {
 		if val, ok := constants[ov.Name]; ok {
-			return val, nil
+			return convertSuppliedValue(module, ov.Ty, val), nil
 		}
 	}
 
@@ -204,6 +205,34 @@ func resolveOverrideValue(module *Module, idx int, constants PipelineConstants, 
 	}
 
 	return 0, fmt.Errorf("no value provided and no default initializer")
+}
+
+// convertSuppliedValue converts a supplied pipeline-constant value to the override's type
+// (WebIDL conversions, as upstream naga's map_value_to_literal): an integer is truncated
+// toward zero, a bool is true for every value other than 0 and NaN. The converted value
+// is what derived overrides and the override itself must see; using the raw float made
+// `override n: i32` supplied 1.5 count as 1 itself but as 1.5 inside `override m = n * 2`.
+func convertSuppliedValue(module *Module, ty TypeHandle, val float64) float64 {
+	if int(ty) >= len(module.Types) {
+		return val
+	}
+	scalar, ok := module.Types[ty].Inner.(ScalarType)
+	if !ok {
+		return val
+	}
+	switch scalar.Kind {
+	case ScalarBool:
+		if val != 0 && val == val { // not zero, not NaN
+			return 1
+		}
+		return 0
+	case ScalarSint, ScalarUint:
+		if math.IsNaN(val) || math.IsInf(val, 0) {
+			return val
+		}
+		return math.Trunc(val)
+	}
+	return val
 }
 
 // evaluateGlobalExprAsFloat evaluates a global expression to a float64 value.
